@@ -203,7 +203,7 @@ func (q *Seq) Step(from *net.UDPAddr, d []byte, what string, decaps func(ct []by
 				_, ad := CookieADSpec(kc, from)
 				k, ok := openCookieSpec(ck, ad, SH[772:836])
 				if !ok {
-					q.Bad = append(q.Bad, fmt.Sprintf("step %d: the cookie of the ServerHello does not open under the current key with AD=H(ekem||ip||port)", q.N))
+					q.Bad = append(q.Bad, fmt.Sprintf("step %d: the cookie in the ServerHello sent to %s does not open under the current cookie key with AD = H(client KEM key || source ip || source port): it is not bound to that source address and key", q.N, from))
 					q.blind = true
 					return
 				}
@@ -361,9 +361,12 @@ func (q *Seq) Step(from *net.UDPAddr, d []byte, what string, decaps func(ct []by
 			q.Bad = append(q.Bad, fmt.Sprintf("step %d: the server sent a datagram to %s in response to one from %s", q.N, o.Addr, from))
 		}
 	}
-	ip := uint64(from.IP[0])<<24 | uint64(from.IP[1])<<16 | uint64(from.IP[2])<<8 | uint64(from.IP[3])
+	ip := hv.Hex(from.IP)
+	if len(from.IP) == 4 {
+		ip = fmt.Sprintf("(ip4 %d)", uint64(from.IP[0])<<24|uint64(from.IP[1])<<16|uint64(from.IP[2])<<8|uint64(from.IP[3]))
+	}
 	if len(outs) == 0 && len(sh.Ops) == 0 && e.Empty() && len(si.sids) == 0 && keys == "None" {
-		q.steps = append(q.steps, fmt.Sprintf("SJunk %d %d %s %d %d %d %d", ip, from.Port, q.expr(d), code, nhs, nss, npend))
+		q.steps = append(q.steps, fmt.Sprintf("SJunk %s %d %s %d %d %d %d", ip, from.Port, q.expr(d), code, nhs, nss, npend))
 		return
 	}
 	sin := hv.App("SI", hv.N(uint64(now)), e.Hx(si.ct), e.Hx(si.k), e.Hx(si.cookie), hv.Ni(IDSrvEph), e.Hx(si.epub),
@@ -373,7 +376,7 @@ func (q *Seq) Step(from *net.UDPAddr, d []byte, what string, decaps func(ct []by
 		os[i] = e.Hx(o.Data)
 	}
 	ob := fmt.Sprintf("(SObs %d %s %d %d %d %s)", code, hv.List(os), nhs, nss, npend, keys)
-	q.steps = append(q.steps, fmt.Sprintf("SDgram %d %d %s %s (fun B : bytes => %s)", ip, from.Port, q.expr(d), hv.Hex(outcat),
+	q.steps = append(q.steps, fmt.Sprintf("SDgram %s %d %s %s (fun B : bytes => %s)", ip, from.Port, q.expr(d), hv.Hex(outcat),
 		hv.Tuple(e.Coq(), sin, ob)))
 	return
 }
